@@ -583,3 +583,73 @@ package ro
 
 //@ loop RaceWith$2$1#0
 //@   invariant 0 <= it && it <= len(ranged)
+
+// ---------------------------------------------------------------------------
+// re-subscribing operators (C15): the callbacks of one attempt, and the attempt loop of the subscribe function
+// (each iteration subscribes once and waits for that attempt before the loop continues).
+// ---------------------------------------------------------------------------
+
+//@ operator RetryWithConfig
+//@   props C15 C09
+//@   alias attempt=source.SubscribeWithContext()
+//@   on next(ctx, value) when opts.ResetOnSuccess : emits Next(ctx, value) ; post retries' == 0
+//@   on next(ctx, value) when !opts.ResetOnSuccess : emits Next(ctx, value) ; post retries' == retries
+//@   on error(ctx, err) : emits ; post retries' == retries + 1 && lastErr' == err && shouldRetry' == (opts.MaxRetries == 0 || retries + 1 <= opts.MaxRetries)
+//@   on complete(ctx) : emits Complete(ctx)
+
+//@ loop RetryWithConfig$1$1#0
+//@   iteration ensures count(source.SubscribeWithContext) == 1 && count(attempt.Wait) == 1 && before(source.SubscribeWithContext, attempt.Wait) && arg(source.SubscribeWithContext, 0) == subscriberCtx
+//@   iteration ensures before(subscriptions.AddUnsubscribable, attempt.Wait)
+
+//@ operator RepeatWith
+//@   props C15 C09
+//@   alias attempt=source.SubscribeWithContext()
+//@   requires count >= 1
+//@   on next(ctx, value) : emits Next(ctx, value)
+//@   on error(ctx, err) : emits Error(ctx, err)
+//@   on complete(ctx) : emits ; post lastCtx' == ctx
+
+//@ loop RepeatWith$1$1#0
+//@   invariant 0 <= i && i <= count
+//@   iteration ensures count(source.SubscribeWithContext) == 1 && count(attempt.Wait) == 1 && before(source.SubscribeWithContext, attempt.Wait) && arg(source.SubscribeWithContext, 0) == subscriberCtx
+
+//@ operator OnErrorResumeNextWith
+//@   props C15 C09
+//@   alias attempt=sources[].SubscribeWithContext() each=sources[]
+//@   on next(ctx, value) : emits Next(ctx, value)
+//@   on error(ctx, e) : emits ; post err' == e && lastCtx' == ctx
+//@   on complete(ctx) : emits ; post lastCtx' == ctx
+
+//@ loop OnErrorResumeNextWith$1$1#0
+//@   invariant 0 <= it && it <= len(ranged)
+//@   iteration ensures count(each.SubscribeWithContext) == 1 && count(attempt.Wait) == 1 && before(each.SubscribeWithContext, attempt.Wait)
+
+//@ operator DoWhileIWithContext
+//@   props C15 C09
+//@   alias attempt=source.SubscribeWithContext()
+//@   on next(ctx, value) : emits Next(ctx, value)
+//@   on error(ctx, err) : emits Error(ctx, err) ; post lastErr' == err
+//@   on complete(ctx) : emits ; post completed' == true && i' == i + 1 && currentCtx' == condition_0(ctx, i) && shouldContinue' == condition_1(ctx, i)
+
+//@ loop DoWhileIWithContext$1$1#0
+//@   iteration ensures count(source.SubscribeWithContext) == 1 && count(attempt.Wait) == 1 && before(source.SubscribeWithContext, attempt.Wait)
+
+//@ operator WhileIWithContext
+//@   props C15 C09
+//@   alias attempt=source.SubscribeWithContext()
+//@   on next(ctx, value) : emits Next(ctx, value)
+//@   on error(ctx, err) : emits Error(ctx, err) ; post lastErr' == err
+//@   on complete(ctx) : emits
+
+//@ loop WhileIWithContext$1$1#0
+//@   iteration ensures count(callfn.condition) == 1 && count(source.SubscribeWithContext) == 1 && count(attempt.Wait) == 1 && before(callfn.condition, source.SubscribeWithContext) && before(source.SubscribeWithContext, attempt.Wait)
+
+//@ operator ConcatAll
+//@   props C15 C05
+//@   alias inner=source.SubscribeWithContext()
+//@   track source.SubscribeWithContext source.SubscribeWithContext().* subscriptions.*
+//@   on next@sources(ctx, source) : emits source.SubscribeWithContext(ctx, _), subscriptions.AddUnsubscribable(_), inner.Wait()
+//@   on error@sources(ctx, err) : emits subscriptions.Unsubscribe(), Error(ctx, err)
+//@   on next@source(ctx, value) : emits Next(ctx, value)
+//@   on error@source(ctx, err) : emits subscriptions.Unsubscribe(), Error(ctx, err)
+//@   on complete@source(ctx) : emits
